@@ -278,10 +278,22 @@ def trace_cfg(variant, invariants=()):
 
 
 def validate(traces, variant, invariants=(), chunk=200):
-    v, st = C.validate_traces('ParquetDumpTrace', [to_tlc(t) for t in traces],
+    """Verdicts for `traces`.  Executions that differ only in fields TLC does not read
+    (codec, file mode, schema ...) give the same record: TLC judges each distinct record
+    once and the verdict is shared."""
+    recs = [to_tlc(t) for t in traces]
+    keys = [C.json.dumps(r, sort_keys=True) for r in recs]
+    index = {}
+    uniq = []
+    for k, r in zip(keys, recs):
+        if k not in index:
+            index[k] = len(uniq)
+            uniq.append(r)
+    v, st = C.validate_traces('ParquetDumpTrace', uniq,
                               cfg_text=trace_cfg(variant, invariants), chunk=chunk,
                               workers=max(2, C.NCPU // 2))
-    return v, st
+    st = dict(st, distinct_records=len(uniq))
+    return [v[index[k]] for k in keys], st
 
 
 def verdict_core(v):
@@ -326,6 +338,84 @@ def do_replay(path):
 
 # ---------------------------------------------------------------- the check
 
+def _worker(cases):
+    """runs in a separate process: execute a slice of the cases on the real code"""
+    C.use_repo()
+    with C.scratch('rxsci-verif.c20.') as tmp, C.quiet_stdout():
+        return [execute(c, tmp) for c in cases]
+
+
+class Executions:
+    """Executes cases on the real code in `nproc` worker processes (the conversion of
+    parquet rows to python objects is CPU bound); results keep the order of the cases."""
+
+    def __init__(self, nproc):
+        import concurrent.futures as cf
+        import multiprocessing as mp
+        self.nproc = nproc
+        self.pool = cf.ProcessPoolExecutor(max_workers=nproc, mp_context=mp.get_context('spawn'))
+
+    def submit(self, cases):
+        k = self.nproc * 4          # interleaved slices: cheap and costly cases are mixed
+        return (len(cases), [(list(range(i, len(cases), k)), self.pool.submit(_worker, cases[i::k]))
+                             for i in range(k) if cases[i::k]])
+
+    @staticmethod
+    def result(job):
+        n, parts = job
+        out = [None] * n
+        for idx, fut in parts:
+            for i, tr in zip(idx, fut.result()):
+                out[i] = tr
+        if any(t is None for t in out):
+            raise C.MachineryError('execution results missing')
+        return out
+
+    def close(self):
+        self.pool.shutdown()
+
+
+def random_cases(rng, nrand, thorough):
+    """(N, b, m) far beyond the model bounds, every relation between N and b."""
+    cases = []
+    for k in range(nrand):
+        # N / b is kept small: as long as every record batch repeats the previous ones
+        # the file grows with N * (N / b)
+        shape = rng.choice(['small', 'small', 'mid', 'mid', 'big'])
+        if shape == 'small':
+            b, maxk = rng.randint(1, 6), 12
+        elif shape == 'mid':
+            b, maxk = rng.randint(5, 200), 8
+        else:
+            b, maxk = rng.randint(200, 2000), 4
+        rel = rng.choice(['fewer', 'equal', 'multiple', 'non-multiple', 'any', 'zero'])
+        kmax = max(1, min(maxk, 5000 // b))
+        if rel == 'fewer':
+            N = rng.randint(0, b - 1)
+        elif rel == 'equal':
+            N = b
+        elif rel == 'multiple':
+            N = b * rng.randint(1, kmax)
+        elif rel == 'non-multiple':
+            N = min(5000, b * rng.randint(1, kmax) + rng.randint(1, max(1, b - 1)))
+        elif rel == 'zero':
+            N = rng.choice([0, 1])
+        else:
+            N = rng.randint(0, min(5000, b * kmax))
+        m = rng.choice([1, 2, 3, b, max(1, b - 1), b + 1, rng.randint(1, 2000),
+                        rng.randint(1, 2000)])
+        if N > 1500 and m < 5:
+            m = rng.randint(5, 2000)
+        kind = rng.choice(['ids', 'flat', 'nested'])
+        if kind == 'nested' and N > 600 and (not thorough or rng.random() < 0.7):
+            kind = 'flat'           # python-side conversion of nested rows is slow
+        cases.append(mk_case(
+            N, b, m, rng.choice(COMPRESSIONS + ['none-as-None']), rng.choice(MODES),
+            rng.choice([None, None, 1, 7, 100, 1024, 100000]), kind,
+            rowseed=rng.randint(0, 10 ** 6), origin='random'))
+    return cases
+
+
 def main(tier, replay):
     if replay:
         return do_replay(replay)
@@ -347,7 +437,15 @@ def main(tier, replay):
         const = dict(base, FixBatch=variant[0], FixBuffer=variant[1])
         return C.run_tlc('ParquetDump', C.cfg(constants=const, invariants=inv), coverage=True,
                          workers=2)
-    mc_runs = dict(zip(VARIANTS, C.par([lambda v=v: mc(v) for v in VARIANTS])))
+    import concurrent.futures as cf
+    pool = cf.ThreadPoolExecutor(max_workers=8)
+    mc_futs = [pool.submit(mc, v) for v in VARIANTS]
+
+    # 3. random executions: started now, in worker processes -----------------------------
+    cases = random_cases(rng, 800 if thorough else 160, thorough)
+    ex = Executions(min(6, max(2, C.NCPU // 2)) if thorough else 4)
+    big_job = ex.submit(cases)
+    mc_runs = dict(zip(VARIANTS, [f.result() for f in mc_futs]))
     model_fail = {}
     for v, r in mc_runs.items():
         if r.violated:
@@ -364,71 +462,34 @@ def main(tier, replay):
     V.phase('model checking')
 
     # 2. replay of every TLC behaviour on the real code ---------------------------------
-    small = []
-    with C.scratch('rxsci-verif.c20.') as tmp, C.quiet_stdout():
-        for (N, b, m) in triples:
-            for comp in COMPRESSIONS:
-                for mode in (MODES if thorough else MODES[:2]):
-                    for rgs in ((None, 2) if thorough else (None,)):
-                        kind = ['ids', 'flat', 'nested'][(N + b + m + len(comp)) % 3]
-                        small.append(execute(mk_case(N, b, m, comp, mode, rgs, kind,
-                                                     rowseed=N * 31 + b), tmp))
-        # a few configurations outside the product above, in both tiers
-        for (N, b, m) in triples:
-            if m == 1:
-                small.append(execute(mk_case(N, b, 2, 'none-as-None', 'fileobj', 3, 'nested',
-                                             rowseed=N), tmp))
+    small_cases = []
+    for (N, b, m) in triples:
+        for comp in COMPRESSIONS:
+            for mode in (MODES if thorough else MODES[:2]):
+                for rgs in ((None, 2) if thorough else (None,)):
+                    kind = ['ids', 'flat', 'nested'][(N + b + m + len(comp)) % 3]
+                    small_cases.append(mk_case(N, b, m, comp, mode, rgs, kind, rowseed=N * 31 + b))
+    # a few configurations outside the product above, in both tiers
+    for (N, b, m) in triples:
+        if m == 1:
+            small_cases.append(mk_case(N, b, 2, 'none-as-None', 'fileobj', 3, 'nested', rowseed=N))
+    small = ex.result(ex.submit(small_cases))
     n_replayed = len(small)
     V.phase('replay of TLC behaviours')
 
-    # 3. random executions --------------------------------------------------------------
-    nrand = 1200 if thorough else 160
-    big = []
-    with C.scratch('rxsci-verif.c20.') as tmp, C.quiet_stdout():
-        for k in range(nrand):
-            shape = rng.choice(['small', 'small', 'mid', 'big'])
-            if shape == 'small':
-                b = rng.randint(1, 6)
-                maxk = 12
-            elif shape == 'mid':
-                b = rng.randint(5, 200)
-                maxk = 12
-            else:
-                b = rng.randint(200, 2000)
-                maxk = 8
-            rel = rng.choice(['fewer', 'equal', 'multiple', 'non-multiple', 'any', 'zero'])
-            kmax = max(1, min(maxk, 5000 // b))
-            if rel == 'fewer':
-                N = rng.randint(0, b - 1)
-            elif rel == 'equal':
-                N = b
-            elif rel == 'multiple':
-                N = b * rng.randint(1, kmax)
-            elif rel == 'non-multiple':
-                N = min(5000, b * rng.randint(1, kmax) + rng.randint(1, max(1, b - 1)))
-            elif rel == 'zero':
-                N = rng.choice([0, 1])
-            else:
-                N = rng.randint(0, min(5000, b * kmax))
-            m = rng.choice([1, 2, 3, b, max(1, b - 1), b + 1, rng.randint(1, 2000),
-                            rng.randint(1, 2000)])
-            if N > 1500 and m < 5:
-                m = rng.randint(5, 2000)
-            big.append(execute(mk_case(
-                N, b, m, rng.choice(COMPRESSIONS + ['none-as-None']), rng.choice(MODES),
-                rng.choice([None, None, 1, 7, 100, 1024, 100000]),
-                rng.choice(['ids', 'flat', 'nested']), rowseed=rng.randint(0, 10 ** 6),
-                origin='random'), tmp))
-    V.phase('random executions')
-
     # 4. validation by TLC --------------------------------------------------------------
-    tstats = {'states': 0, 'transitions': 0, 'tlc_runs': 0}
+    tstats = {'states': 0, 'transitions': 0, 'tlc_runs': 0, 'distinct_records': 0}
 
     def add(st):
         for k in tstats:
             tstats[k] += st[k]
-    res = C.par([lambda v=v: validate(small, v, invariants=['TraceInv']) for v in VARIANTS],
-                max_workers=4)
+    val_futs = [pool.submit(validate, small, v, ['TraceInv']) for v in VARIANTS]
+
+    big = ex.result(big_job)
+    ex.close()
+    V.phase('random executions')
+    res = [f.result() for f in val_futs]
+    pool.shutdown()
     by_variant = {}
     for v, (verdicts, st) in zip(VARIANTS, res):
         add(st)
@@ -444,7 +505,7 @@ def main(tier, replay):
         raise C.MachineryError('executions do not tell the variants apart: %r' % (followed,))
     variant = followed[0] if followed else (True, True)
     V.phase('trace validation (behaviours, 4 variants)')
-    big_verdicts, st = validate(big, variant, chunk=max(10, len(big) // max(2, C.NCPU // 2)))
+    big_verdicts, st = validate(big, variant, chunk=max(10, -(-len(big) // 4)))
     add(st)
     V.phase('trace validation (random)')
 
@@ -523,7 +584,7 @@ def main(tier, replay):
         'the mux path of batch() belongs to C10',
         'rows are told apart by a unique integer id; a row read back counts as source row i '
         'only if all its columns equal those of row i',
-        'random executions keep N / b <= 12 so that the file stays small while every record '
+        'random executions keep N / b <= 12 (<= 4 for b >= 200) so that the file stays small while every record '
         'batch repeats the previous ones; floats are finite, float32 values exactly representable',
         'pyarrow is trusted for the file format; record batch sizes are observed by wrapping '
         'pyarrow.parquet.ParquetWriter (informational only)'])
